@@ -304,6 +304,33 @@ def rule_file_checkers(ctx):
         if good:
             fin = b.find_calls(lambda c: c.qname == 'sha2::Digest::finalize')
             good = len(fin) == 1 and ctx.base_call_bbs(b.orig_operand(fin[0].args[0])) == {news[0].bb} and b.must_before(fin[0].bb, ctx.both(ctx.infeasible(b), lambda n: n == cps[0].bb)) is None
+        if not good and not cps:
+            # a manual read loop is accepted when the only way from a read to the finalisation is the `0 bytes read` edge and every non-empty read is fed to the digest
+            rds = b.find_calls(lambda c: c.qname in ('std::io::Read::read', 'std::io::BufRead::fill_buf') and all(o.kind == 'arg' and o.key in readers for o in b.orig_operand(c.args[0])))
+            fin = b.find_calls(lambda c: c.qname == 'sha2::Digest::finalize')
+            ups = {c.bb for c in b.find_calls(lambda c: c.qname in ('sha2::Digest::update', 'sha2::digest::Update::update'))}
+            if len(rds) == 1 and len(fin) == 1:
+                r0 = rds[0]
+                zero_edges = set()
+                for (bb, k), gd in b.guards.items():
+                    if r0.bb not in ctx.base_call_bbs(gd.origins) and not any(o.kind == 'op' for o in gd.origins):
+                        continue
+                    if gd.kind == 'int' and gd.value == 0 and r0.bb in ctx.base_call_bbs(gd.origins):
+                        zero_edges.add(('e', bb, k))
+                    if gd.kind == 'bool':
+                        for o in gd.origins:
+                            if o.kind == 'op':
+                                rv = b.blocks[o.key[0]]['stmts'][o.key[1]]['rv']
+                                if rv['k'] == 'bin' and rv['bop'] == 'Eq' and rv['b'].get('k', {}).get('int') == '0' and r0.bb in ctx.base_call_bbs(b.orig_operand(F.operand(rv['a']))) and gd.truth() is True:
+                                    zero_edges.add(('e', bb, k))
+                                if rv['k'] == 'bin' and rv['bop'] == 'Ne' and rv['b'].get('k', {}).get('int') == '0' and r0.bb in ctx.base_call_bbs(b.orig_operand(F.operand(rv['a']))) and gd.truth() is False:
+                                    zero_edges.add(('e', bb, k))
+                inf_ = ctx.infeasible(b)
+                s1 = b.reach(b.xsucc(r0.bb), avoid=ctx.both(inf_, lambda n: n in zero_edges))
+                to_fin = fin[0].bb in s1
+                s2 = b.reach(b.xsucc(r0.bb), avoid=ctx.both(inf_, lambda n: n in zero_edges or n in ups), stop=lambda n: n == r0.bb)
+                loops_without_update = r0.bb in s2
+                good = bool(zero_edges) and not to_fin and not loops_without_update and ctx.base_call_bbs(b.orig_operand(fin[0].args[0])) == {news[0].bb}
         R.ob('F6-whole-file', b.path, good, 'the digest is fed the whole reader (io::copy to EOF) and finalised afterwards' if good
              else 'the content hash is not provably taken over the whole file (expected io::copy(reader, hasher) followed by finalize of that hasher)', ctx.where(b), props=P)
     # F7: OpenRead helpers and construction per variant
